@@ -287,4 +287,83 @@ theorem rejustified_dead_handle :
     by unfold Engine.SupportedNow; decide, by decide, by decide, ?_⟩
   simp [Tms.hasValidJustification, hasValid, Just.valid]
 
+/-! ### the maintenance call `C` (`clear_modification_tracking`) — oracle clause `maintenance`
+
+`StepView`, `weave`, `unweave`, `traceC` (Spec.lean) are the functions `drv_c08` runs, for any step type `σ` / sets type `π`
+(the driver: the text of a step, `ReflBEq`/`LawfulBEq String`). -/
+
+/-- **Maintenance calls are invisible.** For every case `ts` (operations with `C` calls anywhere, any number of them), every
+rendering `enc` of an observation and every view `V`:
+(a) the model extended by `C` as a call that leaves the engine alone (`traceC`) shows exactly the model's trace of the history
+    WITHOUT the calls, with a step `cstep <sets before>` woven in at every `C` — this is the line `drv_c08 model` prints;
+(b) on that observation the clause `maintenance` holds at every `C` step (`unweave` answers `.ok`, never `.error i`), and what it
+    hands on to `runOk` is, step for step, the model's trace of the stripped history: no observation of any operation changed;
+(c) which `runOk` accepts when the stripped history is well-formed (`model_meets_spec`). -/
+theorem maintenance_noop {σ π : Type} [BEq σ] [ReflBEq σ] (V : StepView σ π) (enc : Obs → σ) (empty : π)
+    (ts : List (Option Op)) :
+    traceC V enc (universeOf (stripC ts)) init empty ts
+        = weave V ts ((trace (universeOf (stripC ts)) init (stripC ts)).map enc) empty
+    ∧ unweave V ts (traceC V enc (universeOf (stripC ts)) init empty ts) empty 0
+        = .ok ((trace (universeOf (stripC ts)) init (stripC ts)).map enc)
+    ∧ (WF (stripC ts) → runOk (stripC ts) (trace (universeOf (stripC ts)) init (stripC ts)) = true) := by
+  refine ⟨traceC_eq_weave V enc _ init empty ts, ?_, model_meets_spec (stripC ts)⟩
+  rw [traceC_eq_weave]
+  exact unweave_weave V ts _ empty 0 (by rw [List.length_map, trace_length])
+
+/-- **`runOk` of the stripped history implies the clause, for any observations.** Take ANY observation `steps` of the history
+without its maintenance calls (the implementation's, not only the model's) and let every `C` step repeat the sets of the step
+before it (`weave`): the clause holds at every `C` and the steps handed to `runOk` are `steps` themselves — so the verdict on
+the case with the calls is the verdict `runOk (stripC ts) steps` on the case without them; two cases that differ only in where
+their `C` calls are get the same steps. A history without `C` is woven into itself. -/
+theorem maintenance_transparent {σ π : Type} [BEq σ] [ReflBEq σ] (V : StepView σ π) (ts : List (Option Op))
+    (steps : List σ) (prev : π) (i : Nat) (hl : steps.length = (stripC ts).length) :
+    unweave V ts (weave V ts steps prev) prev i = .ok steps
+    ∧ (weave V ts steps prev).length = ts.length
+    ∧ (∀ ts' j, stripC ts' = stripC ts → unweave V ts' (weave V ts' steps prev) prev j = .ok steps)
+    ∧ weave V ((stripC ts).map some) steps prev = steps :=
+  ⟨unweave_weave V ts steps prev i hl, weave_length V ts steps prev hl,
+   fun ts' j h => unweave_weave V ts' steps prev j (by rw [h]; exact hl),
+   weave_map_some V (stripC ts) steps prev hl⟩
+
+/-- **The clause is exact.** On an observation with one step per token, `unweave` answers `.ok rest` exactly when the observation
+is `rest` with, at every `C`, the step `cstep <sets of the last step before it that is not a C step>` (the empty sets before the
+first operation) — nothing else passes; and an answer `.error j` names a token `j` that is a `C` whose step differs from the
+expected one (the driver prints `fail maintenance@j`). -/
+theorem maintenance_exact {σ π : Type} [BEq σ] [LawfulBEq σ] (V : StepView σ π) (ts : List (Option Op))
+    (obs : List σ) (prev : π) (i : Nat) (hl : obs.length = ts.length) :
+    (∀ rest, unweave V ts obs prev i = .ok rest ↔ (rest.length = (stripC ts).length ∧ obs = weave V ts rest prev))
+    ∧ (∀ j, unweave V ts obs prev i = .error j →
+        i ≤ j ∧ ts[j - i]? = some none ∧ ∃ st, obs[j - i]? = some st ∧ ∃ p, (st == V.cstep p) = false) := by
+  refine ⟨fun rest => ⟨unweave_ok_exact V ts obs rest prev i hl, ?_⟩, fun j => unweave_error_at V ts obs prev i j⟩
+  rintro ⟨h1, h2⟩
+  rw [h2]
+  exact unweave_weave V ts rest prev i h1
+
+/-- a structured instance of the view for the examples: a step is (result or `c`, the five sets) -/
+def obsView : StepView (Option Res × List (List Nat)) (List (List Nat)) :=
+  { setsOf := fun s => s.2, cstep := fun p => (none, p) }
+def encObs (o : Obs) : Option Res × List (List Nat) := (some o.res, [o.present, o.logical, o.explicit, o.valid, o.stats])
+
+-- a history with maintenance calls before the first operation, between operations and (twice) at the end
+example :
+    traceC obsView encObs 3 init [[], [], [], [], [0, 0, 0, 0]] [none, some .insert, none, some (.insertLogical [1]), none, none]
+      = [(none, [[], [], [], [], [0, 0, 0, 0]]),
+         (some (.handle 1), [[1], [], [1], [1], [1, 0, 1, 0]]),
+         (none, [[1], [], [1], [1], [1, 0, 1, 0]]),
+         (some (.handle 2), [[1, 2], [2], [1], [1, 2], [2, 1, 1, 0]]),
+         (none, [[1, 2], [2], [1], [1, 2], [2, 1, 1, 0]]),
+         (none, [[1, 2], [2], [1], [1, 2], [2, 1, 1, 0]])]
+    ∧ unweave obsView [none, some .insert, none, some (.insertLogical [1]), none, none]
+        (traceC obsView encObs 3 init [[], [], [], [], [0, 0, 0, 0]]
+          [none, some .insert, none, some (.insertLogical [1]), none, none]) [[], [], [], [], [0, 0, 0, 0]] 0
+      = .ok ((trace 3 init [.insert, .insertLogical [1]]).map encObs) := by constructor <;> rfl
+-- the clause rejects a `C` step that lost a fact (token 2), and one that shows a result other than `c` (token 0)
+example :
+    unweave obsView [some .insert, some (.insertLogical [1]), none]
+      [(some (.handle 1), [[1], [], [1], [1], [1, 0, 1, 0]]), (some (.handle 2), [[1, 2], [2], [1], [1, 2], [2, 1, 1, 0]]),
+       (none, [[1], [], [1], [1], [2, 1, 1, 0]])] [[], [], [], [], [0, 0, 0, 0]] 0 = .error 2
+    ∧ unweave obsView [none, some .insert]
+      [(some .unit, [[], [], [], [], [0, 0, 0, 0]]), (some (.handle 1), [[1], [], [1], [1], [1, 0, 1, 0]])]
+      [[], [], [], [], [0, 0, 0, 0]] 0 = .error 0 := by constructor <;> rfl
+
 end C08
